@@ -40,6 +40,25 @@ func (c02Harness) Gen(r *verifsim.SplitMix, tier string, idx int) any {
 		}
 		sp.Faults = append(sp.Faults, f)
 	}
+	if r.Chance(1, 4) {
+		// a resumed transfer from a healthy prior state (written directly, every bitmap shape):
+		// with a verify tail the sender repeats chunks the receiver already holds, and a fault
+		// may strike such a repeat
+		sp.ResumeS, sp.ResumeR = true, true
+		sp.Tail = 1 + uint32(r.Intn(2))
+		if sp.Hash == "none" {
+			sp.Hash = "crc32c"
+		}
+		for i := 0; i < 1+r.Intn(2); i++ {
+			sp.Damage = append(sp.Damage, txDamage{Kind: "synthetic", File: r.Intn(8), Arg: r.Intn(1 << 20)})
+		}
+		if r.Chance(2, 3) {
+			sp.Faults[0].Kind = "flip"
+			if sp.Faults[0].At >= 0 {
+				sp.Faults[0].At = -1 - r.Intn(1000)
+			}
+		}
+	}
 	if tier == "thorough" && idx%10 == 0 {
 		// exhaustive placement of the (single) positioned fault over every delivery index
 		sp.Faults = sp.Faults[:1]
@@ -125,6 +144,22 @@ func (h c02Harness) Run(spec any) (res verifsim.RunResult) {
 		res.Skipped = true
 		return
 	}
+	prior := func() {
+		if len(sp.Damage) == 0 {
+			return
+		}
+		if m0, _, _, err := scanFor(&sp, src); err == nil {
+			os.MkdirAll(sp.outBase(out, m0), 0o755)
+			syntheticSrc = src
+			tornChunks = nil
+			for _, d := range sp.Damage {
+				if k := applyDamage(&sp, out, m0, d); k != "" {
+					res.Counters["prior_state:"+k]++
+				}
+			}
+		}
+	}
+	prior()
 	// fault-free execution of the same spec: yields the delivery count
 	dry := runEpisode(epCfg{sp: &sp, seed: sp.Seed, src: src, out: out, faultFree: true})
 	res.Counters["dry_runs"]++
@@ -148,6 +183,7 @@ func (h c02Harness) Run(spec any) (res verifsim.RunResult) {
 		// the source tree may have been damaged by a previous position
 		os.RemoveAll(src)
 		writeTree(src, sp.ContentSeed, sp.Files, sp.Dirs)
+		prior()
 		faults := placeFaults(sp.Faults, dry.deliveries)
 		if pos >= 0 {
 			faults[0].At = pos
